@@ -154,10 +154,13 @@ class _StatePointDict(JSONAttrDict):
                     # that merely compare equal, e.g. 1.0 instead of 1.)
                     try:
                         restored = self._load_from_resource()
+                        if calc_id(restored) != old_id:
+                            raise ValueError(old_id)
                     except ValueError:
-                        # The restored file cannot be read (it was damaged in the
-                        # meantime): fall back to the state point known to the
-                        # handles before this edit.
+                        # The restored file cannot be read or is not the state
+                        # point of this job (it was damaged in the meantime): fall
+                        # back to the state point known to the handles before this
+                        # edit.
                         restored = job._cached_statepoint
                     if restored is None:
                         # Nothing is known about the actual state point. Forget the
